@@ -27,6 +27,7 @@ import (
 
 	"grulesim/sim/checks"
 	"grulesim/sim/core"
+	"grulesim/sim/dsim"
 )
 
 const defaultSeed = 20260925
@@ -74,7 +75,11 @@ func main() {
 		}
 		os.Exit(cmdCheck(os.Args[2], os.Args[3]))
 	case "worker":
-		os.Exit(cmdWorker(os.Args[2:]))
+		code := cmdWorker(os.Args[2:])
+		checks.CloseC20()
+		os.Exit(code)
+	case "c20child":
+		os.Exit(dsim.ChildMain())
 	case "replay":
 		os.Exit(cmdReplay(os.Args[2]))
 	case "selftest":
